@@ -44,6 +44,46 @@ NEEDS = {
  "C18-b": ("basic_schedules.py: SingleMemory `n1 = sys.maxsize` (absolute)", "two or more next() before finalize: Forward(sys.maxsize, sys.maxsize, ...)"),
  "C19-a": ("hrevolve.py PeriodicDiskRevolve.__init__: (ub, uf) swapped in the call", "uf != ub with the two ratios on different sides of a binomial threshold: Periodic(6,3,uf=1,ub=2,wd=4,rd=4)"),
  "C19-b": ("hrevolve_sequences/periodic_disk_revolve.py: sweep loop compares with mmax (= mx+1)", "(n-1) mod m == 1 and n-1 > m: the last due disk checkpoint is skipped: Periodic(14,2)"),
+
+ # ---- round 2 (ids -c, -d): agents were told the round-1 ideas and asked for different, more specific ones
+ "C01-c": ("hrevolve_sequences/hrevolve.py l==1 base case: 'tidied' guard writes a disk checkpoint that already exists", "HRevolve with rd == 0 reaching the disk-level two-step base case: HRevolve(7,1,1,wd=2,rd=0) overwrites disk checkpoint 0"),
+ "C01-d": ("basic_schedules.py SingleDisk: n1 = self._n instead of max_n - r", "move_data=False and a SECOND adjoint pass: Copy(-1, DISK, WORK)"),
+ "C02-c": ("twolevel_binomial.py: unit count after a reload ignores the units still held", "a binomial checkpoint reloaded with every unit in use and >= 3 steps to go: TwoLevel(9,1) N=9 ('maximum'), TwoLevel(7,1,'revolve')"),
+ "C02-d": ("basic_schedules.py SingleDisk: n1 = self._n", "move_data=False, second pass (same change as C01-d, found independently)"),
+ "C03-c": ("hrevolve_sequences/hrevolve.py: RAM staging test compares with wvect[K]+rvect[K], read test unchanged", "rd == 0 < wd and particular n: HRevolve(13,1,2,wd=2,rd=0) holds 2 RAM checkpoints with budget 1"),
+ "C03-d": ("multistage.py allocate_snapshots: copy/paste slip, disk clamp takes the RAM count", "mixed split with ram > disk >= 1: Multistage(5,2,1)"),
+ "C04-c": ("multistage.py: delete() helper returns the storage of the slot below", "mixed RAM/disk split: Multistage(6,1,1) Moves name the wrong storage, checkpoints stay"),
+ "C04-d": ("mixed.py: dependency checkpoints written to StorageType.DISK literally", "storage=RAM: Mixed(2,1,RAM) leaves (DISK, 0)"),
+ "C05-c": ("hrevolve_sequences/revolve.py get_opt_0_table: integer floor of the one-slot row", "non-integer uf <= 0.9: Revolve(10,2,uf=0.5) 31 steps instead of 30"),
+ "C05-d": ("hrevolve_sequences/revolve.py revolve(): j*params['up'] instead of j*params['uf']", "uf < 0.5: Revolve(5,2,uf=0.4,ub=2) 12 steps instead of 11"),
+ "C06-c": ("mixed.py both planners: tie-break weight 1e-2*i leaks into the cost comparison", "n >= 608 with 26 <= s <= 40: Mixed(608,27) 1426 steps instead of 1425"),
+ "C06-d": ("mixed.py memoised planner: one-unit closed form used for a one-step remainder with two units", "exactly n = (s+1)(s+2)/2 - 2: Mixed(4,2) 7 steps instead of 6"),
+ "C07-c": ("hrevolve_sequences/revolve.py get_opt_0_table: integer floor for non-integer uf", "non-integer uf only: Revolve(9,3,uf=0.5), DiskRevolve(6,1,uf=0.5,wd=0.25,rd=0.25)"),
+ "C07-d": ("hrevolve_sequences/hrevolve.py l==1 leaf: second guard compares with wvect[K]", "wd == 0 < rd: HRevolve(4,1,1,uf=3,wd=0,rd=1) cost 30 vs 29"),
+ "C08-c": ("basic_schedules.py SingleDisk: r computed from a stale local of the forward loop", "finalize called late (extra Forwards requested first): r exceeds max_n"),
+ "C08-d": ("schedule.py finalize: mutate before validate", "a refused premature finalize(k) has already set max_n"),
+ "C09-c": ("twolevel_binomial.py: period start kept across passes, reset assumes a full last period", ">= 2 passes and max_n % period != 0: TwoLevel(3,2) N=5"),
+ "C09-d": ("schedule.py __iter__ returns self._iterator()", "iter(s) / enumerate(s) makes is_running True before any action is requested"),
+ "C10-c": ("schedule.py finalize: `or self.is_exhausted` added to the rejection", "finalize(max_n) after the last action of a one-step offline schedule or of NoneCheckpointSchedule is rejected"),
+ "C10-d": ("twolevel_binomial.py: self._n assigned after the yield of a binomial Move", "finalize(max_n) accepted at exactly one moment per pass: right after the Move following Reverse(max_n, max_n-1)"),
+ "C11-c": ("twolevel_binomial.py uses_storage_type: interval length from self._n", "binomial storage RAM, period >= 3, queried in the reverse sweep while n <= 2"),
+ "C11-d": ("hrevolve.py uses_storage_type(DISK) for unlimited disk: snapshots_in_ram < max_n - 1", "PeriodicDiskRevolve, RAM units >= max_n - 1, fractional costs with wd+rd < uf"),
+ "C12-c": ("twolevel_binomial.py: re-advance measured from the period start", "period >= 5, 1 <= snapshots <= period-3: Forward overshoots the adjoint"),
+ "C12-d": ("periodic_disk_revolve.py: `if mx == 1: continue` skips the replay of one-step periods", "(wd+rd)/uf < 1 strictly, max_n >= 4: two Moves in a row"),
+ "C13-c": ("twolevel_binomial.py: unit count after a reload", "block length >= 9 ('maximum') / 7 ('revolve') with 1 unit: ValueError mid pass"),
+ "C13-d": ("twolevel_binomial.py: live sanity check after the forward loop", "finalize strictly before the start of the last emitted period: RuntimeError instead of EndForward"),
+ "C14-c": ("multistage.py allocate_snapshots: every Forward charged in the dry run", "mixed split, 'maximum', particular (n,ram,disk): Multistage(11,2,1); 0.1% of splits, none with n <= 10"),
+ "C14-d": ("multistage.py allocate_snapshots: RAM slice [:snapshots - snapshots_on_disk]", "more units than steps: Multistage(5,2,3)"),
+ "C15-c": ("multistage.py: lazy allocation; uses_storage_type forgets the trajectory keyword", "mixed split, 'revolve', an observer read BEFORE the first action: Multistage(10,2,3,revolve)"),
+ "C15-d": ("hrevolve_sequences/revolve.py: module-level cost table, array shape mistaken for the filled region", "three constructions with non-nested shapes: Revolve(10,8), Revolve(40,3), then Revolve(40,6)"),
+ "C16-c": ("mixed.py memoised planner: range(3, n)", "the diagonal n = s+2: Mixed(4,2) differs between the planners"),
+ "C16-d": ("mixed.py _iterator, tabulated branch only: reversed step counted twice in keep-or-delete", "a restart checkpoint revisited with units+2 steps left: Mixed(4,1) Copy vs Move"),
+ "C17-c": ("hrevolve_sequences/hrevolve.py l==1 leaf: branches of the second test swapped", "1 RAM unit, >= 1 disk unit, n in 8,9,11..14 with default costs: RuntimeError instead of EndReverse"),
+ "C17-d": ("twolevel_binomial.py: n1s from self._n (stale after the first sweep)", "any second adjoint pass with max_n >= 2"),
+ "C18-c": ("schedule.py Forward.__contains__: sys.maxsize treated as infinity", "Forward(0, sys.maxsize, ...): `n1 in a` is True"),
+ "C18-d": ("schedule.py Reverse: steps kept as a one-shot iterator", "a second traversal of the same Reverse object is empty"),
+ "C19-c": ("basic_functions.py beta(x, 0) returns 0", "(wd+rd)/uf < 1: period cm+1 instead of 1"),
+ "C19-d": ("periodic_disk_revolve.py: cost table built with params['up']", "uf > 2, >= 2 RAM units, segment longer than the RAM count: Periodic(5,2,uf=3,wd=6,rd=6)"),
 }
 
 
